@@ -41,7 +41,10 @@ func roundTrip(c *mc.Ctx, t uint32, z uint32, extent uint32) {
 	for p := -e; p < 2*e; p++ {
 		mp = append(mp, orb.Point{float64(p), float64(p)})
 	}
-	layer := &mvt.Layer{Name: "l", Version: 2, Extent: extent, Features: []*geojson.Feature{geojson.NewFeature(mp)}}
+	feat := geojson.NewFeature(mp)
+	feat.ID, feat.BBox = 7, geojson.BBox{-1, -1, 1, 1} // an id, properties and a (stale) bbox member have no say in projecting
+	feat.Properties["k"] = "v"
+	layer := &mvt.Layer{Name: "l", Version: 2, Extent: extent, Features: []*geojson.Feature{feat}}
 	tile := maptile.New(t, t, maptile.Zoom(z))
 	layer.ProjectToWGS84(tile)
 	geo := layer.Features[0].Geometry.(orb.MultiPoint).Clone()
